@@ -36,7 +36,8 @@ BUDGET_S = {"quick": 25, "thorough": 120}      # per exported model, all targets
 BIG_MODEL_BYTES = 16 << 20
 MAX_RUNTIME_BYTES = 400 << 20                  # larger exports are only checked statically
 MAX_TERM_CHARS = 6_000_000
-CORPUS_DEADLINE_S = {"quick": 170, "thorough": 1000}
+CORPUS_DEADLINE_S = {"quick": 120, "thorough": 500}
+HARD_DEADLINE_FACTOR = {"quick": 3.0, "thorough": 2.0}                     # on a heavily loaded machine the corpus may take this much longer
 GEN_UNITS = ["GenShapes"]
 BINARY = ("Add", "Mul", "Sub", "Div", "Max", "Min", "Clip")
 
@@ -753,6 +754,12 @@ def _init_worker():
     warnings.simplefilter("ignore")
     import logging
     logging.disable(logging.CRITICAL)
+    try:        # warm up: plugin imports and the registry, so that the first job of a worker is not special
+        import exports
+        import jax2onnx.user_interface  # noqa: F401
+        exports.registry_items()
+    except Exception:  # noqa
+        pass
 
 
 def run_corpus(n_registry, seed, tier, overrides=None, procs=None, extras=True, own=True, indices=None, deadline_s=None):
@@ -780,13 +787,24 @@ def run_corpus(n_registry, seed, tier, overrides=None, procs=None, extras=True, 
         jobs += [("reg", i, overrides, tier, seed) for i in idx]
         t0 = time.time()
         pending = [(j, pool.apply_async(_worker, (j,))) for j in jobs]
+        hard = deadline_s * HARD_DEADLINE_FACTOR.get(tier, 2.0)
+        # soft deadline: stop waiting once it has passed and 90% of the jobs are in; hard deadline: stop anyway
+        while True:
+            done = sum(1 for _j, a in pending if a.ready())
+            el = time.time() - t0
+            if done == len(pending) or el > hard or (el > deadline_s and done >= 0.9 * len(pending)):
+                break
+            time.sleep(0.5)
         for j, a in pending:
-            left = deadline_s - (time.time() - t0)
-            try:
-                out.append(a.get(timeout=max(0.05, left)))
-            except Exception as e:  # noqa  (multiprocessing.TimeoutError or a worker that died)
-                out.append({"key": f"{j[0]}#{j[1]}", "error": None, "unfinished": f"{type(e).__name__}", "post": None, "val": None,
-                            "term": None, "model": None})
+            if a.ready():
+                try:
+                    out.append(a.get(timeout=1))
+                    continue
+                except Exception as e:  # noqa  (a worker that died)
+                    why = type(e).__name__
+            else:
+                why = "not finished at the deadline"
+            out.append({"key": f"{j[0]}#{j[1]}", "error": None, "unfinished": why, "post": None, "val": None, "term": None, "model": None})
     finally:
         pool.terminate()
         pool.join()
@@ -1140,13 +1158,13 @@ def run(ctx):
             ctx.assumptions.append("refresh witness through optimize_graph could not be replayed: " + traceback.format_exc()[-300:])
 
     # ---- (b) + (c) on real exports
-    n_reg = 70 if ctx.tier == "quick" else 600
+    n_reg = 70 if ctx.tier == "quick" else 500
     t0 = time.time()
     results = run_corpus(n_reg, ctx.seed, ctx.tier)
     t_corpus = time.time() - t0
     report_corpus(ctx, results, "default")
     if ctx.tier != "quick":
-        r2 = run_corpus(150, ctx.seed + 1, ctx.tier, overrides={"enable_double_precision": True}, own=True)
+        r2 = run_corpus(80, ctx.seed + 1, ctx.tier, overrides={"enable_double_precision": True}, own=True, deadline_s=150)
         report_corpus(ctx, r2, "x64")
     ctx.coverage["corpus_wall_s"] = round(t_corpus, 1)
     # ---- proved checker inside Coq on the converted exports
